@@ -8,6 +8,7 @@ import (
 	"net"
 	"net/url"
 	"os"
+	"time"
 )
 
 // YieldFn is called (when set) before every RuntimeState mutex acquisition and
@@ -38,7 +39,8 @@ var (
 	VipStartUserVIPPush    func(userID string) (string, error)
 	VipPushHasBeenApproved func(transactionID string) (bool, error)
 
-	SSHAgentDial func() (net.Conn, error)
+	// ClientDialFn, when set, is the transport behind every net.Dial of lib/client/sshagent
+	ClientDialFn func(network, addr string) (net.Conn, error)
 
 	// observing hook (the function goes on): every certificate event handed to the notifier
 	EventPublishCert func(certType string, certData []byte)
@@ -82,4 +84,20 @@ func ClientChmod(name string, mode os.FileMode) error {
 		return d.Chmod(name, mode)
 	}
 	return os.Chmod(name, mode)
+}
+
+// ClientDial stands where lib/client/sshagent calls net.Dial.
+func ClientDial(network, addr string) (net.Conn, error) {
+	if ClientDialFn != nil {
+		return ClientDialFn(network, addr)
+	}
+	return net.Dial(network, addr)
+}
+
+// ClientDialTimeout stands where lib/client/sshagent calls net.DialTimeout.
+func ClientDialTimeout(network, addr string, d time.Duration) (net.Conn, error) {
+	if ClientDialFn != nil {
+		return ClientDialFn(network, addr)
+	}
+	return net.DialTimeout(network, addr, d)
 }
